@@ -21,7 +21,7 @@ RULE = (
     "func_adl_callable processor and a func_adl_parameterized_call property (1-3 literal parameters), each optionally "
     "rewriting the call site (rename the method/function, append a constant argument); queries with uniquely marked call "
     "sites at depth 0-3 inside Select/Where/SelectMany lambdas of the stream and of typed collections, as the root of a "
-    "nested lambda body, inside arithmetic, tuples and dicts, across 1-2 stages; some registered callbacks unused. "
+    "nested lambda body, inside arithmetic, tuples and dicts (keys that are identifiers or not: blanks, keywords, empty, repeated), across 1-2 stages; some registered callbacks unused. "
     "Non-trivial = >=2 callback sites with >=1 at depth >=2, or a rewrite at depth >=1. Distinct by placement + query."
 )
 ASSUMPTIONS = [
@@ -114,7 +114,10 @@ def _case(draw, maxdepth):
         stages.append([op, p, body])
     elif k == 3:
         items = [draw(_val(p, "Evt", depth, names, ctr)) for _ in range(draw(st.integers(1, 3)))]
-        stages.append(["Select", p, ["tup", items] if draw(st.booleans()) else ["dict", [[f"k{i}", v] for i, v in enumerate(items)]]])
+        # dictionary keys need not be identifiers (column titles): 'jet pt', 'class', '', 'met-scaled', a repeated key
+        odd = draw(st.booleans())
+        keys = [draw(st.sampled_from(["jet pt", "class", "", "met-scaled", "1x", "k0", "k0"])) if odd and draw(st.booleans()) else f"k{i}" for i in range(len(items))]
+        stages.append(["Select", p, ["tup", items] if draw(st.booleans()) else ["dict", [[kk, v] for kk, v in zip(keys, items)]]])
     else:
         # collection (or dict holding it) carried to a second stage
         ctr[0] += 1
